@@ -223,6 +223,17 @@ def against_2v1(px: int, py: int, qx: int, qy: int, ax: int, ay: int, strict: bo
   return _check_against([[px, qx], [py, qy]], [[ax], [ay]], strict, (px, py, qx, qy, ax, ay, strict))
 
 
+def against_4v1_distinct_x(y0: int, y1: int, y2: int, y3: int, ax: int, ay: int, strict: bool) -> bool:
+  """
+  pre: True
+  post: _
+  """
+  # four points with pairwise distinct first coordinates (the smallest instance on which the divide-and-conquer
+  # is_pareto_optimal_against really splits), second coordinates and the `against` point arbitrary
+  xs = [0, 10, 20, 30]
+  return _check_against([xs, [y0, y1, y2, y3]], [[ax], [ay]], strict, (y0, y1, y2, y3, ax, ay, strict))
+
+
 def against_2v2(px: int, py: int, qx: int, qy: int, ax: int, ay: int, bx: int, by: int, strict: bool) -> bool:
   """
   pre: True
